@@ -12,11 +12,14 @@ import io
 
 
 class SimFile(object):
-    def __init__(self, fs, path, mode):
+    def __init__(self, fs, path, mode, encoding=None, errors=None):
         self.fs = fs
         self.path = path
         self.mode = mode
         self.closed = False
+        # text layer of the real open(): what is stored is what a reader of the file gets back (UTF-8 by default)
+        self.encoding = encoding
+        self.errors = errors
         if 'w' in mode:
             fs.files[path] = ''
             fs.acked[path] = ''
@@ -29,6 +32,8 @@ class SimFile(object):
         if self.closed:
             raise ValueError('I/O operation on closed file.')
         fs = self.fs
+        if self.encoding is not None:
+            txt = txt.encode(self.encoding, self.errors or 'strict').decode(self.encoding)
         fs.counts['write'] += 1
         n = fs.write_count.get(self.path, 0) + 1
         fs.write_count[self.path] = n
@@ -126,7 +131,7 @@ class SimFS(object):
         if f is not None:
             self.fire(f)
             raise OSError('simfs: injected open failure ' + path)
-        h = SimFile(self, path, mode)
+        h = SimFile(self, path, mode, encoding=kw.get('encoding'), errors=kw.get('errors'))
         self.open_handles.add(path, h)
         return h
 
